@@ -55,6 +55,27 @@ func choicesString(c []int) string {
 	return strings.Join(s, ".")
 }
 
+func nextPrime(n int) int {
+	if n < 2 {
+		return 2
+	}
+	for ; ; n++ {
+		ok := true
+		for d := 2; d*d <= n; d++ {
+			if n%d == 0 {
+				ok = false
+				break
+			}
+		}
+		if ok {
+			return n
+		}
+	}
+}
+
+// budgetDiv scales the step budget down for the second (auto-points) pass.
+var budgetDiv = 1
+
 // ExploreScenario enumerates every schedule of sc with at most bound preemptions.
 func ExploreScenario(r *verifmc.Run, sc Scenario, bound int) Stats {
 	want := sc.sequential()
@@ -95,12 +116,22 @@ func ExploreScenario(r *verifmc.Run, sc Scenario, bound int) Stats {
 		}
 		return "", ""
 	}
-	budget := 3000000 // projected scheduling steps allowed for going one bound deeper
+	// Budget: the number of executions a scenario may spend per preemption bound, in units of a
+	// cheap (microsecond) operation; the declared Cost weight of the scenario divides it. The
+	// stride of yielding points is then chosen so that the bound fits (deterministic).
+	budget := 30000
 	if r.Thorough() {
-		budget = 40000000
+		budget = 600000
 	}
 	if v := os.Getenv("VERIF_SCHED_BUDGET"); v != "" {
 		budget, _ = strconv.Atoi(v)
+	}
+	budget /= budgetDiv
+	if sc.Cost > 1 {
+		budget /= sc.Cost
+	}
+	if budget < 8 {
+		budget = 8
 	}
 	reported := map[string]bool{}
 	body := func(e *Exec) {
@@ -120,7 +151,7 @@ func ExploreScenario(r *verifmc.Run, sc Scenario, bound int) Stats {
 		choices := e.Choices()
 		for k := 0; k < 2; k++ {
 			var o2 outcome
-			Replay(choices, func(e2 *Exec) { o2 = run(e2) })
+			Replay(choices, e.stride, e.siteFirst, func(e2 *Exec) { o2 = run(e2) })
 			c2, _ := describe(o2)
 			if c2 != cls {
 				r.Set("flaky_"+sc.Name, fmt.Sprintf("schedule %s gave %q then %q", choicesString(choices), cls, c2))
@@ -128,47 +159,55 @@ func ExploreScenario(r *verifmc.Run, sc Scenario, bound int) Stats {
 				return
 			}
 		}
-		r.Violation("C11|sched|"+sc.Name+"|"+cls, sc.Name+"@"+choicesString(choices),
+		r.Violation("C11|sched|"+sc.Name+"|"+cls, sc.Name+"@"+strconv.Itoa(e.stride)+"/"+strconv.Itoa(e.siteFirst)+":"+choicesString(choices),
 			fmt.Sprintf("scenario %s, schedule with %d preemption(s) (thread order %v): %s", sc.Name, e.Preemptions(), e.Trace(), what),
-			map[string]interface{}{"scenario": sc.Name, "choices": choicesString(choices), "thread_trace": e.Trace(), "preemptions": e.Preemptions()})
+			map[string]interface{}{"scenario": sc.Name, "choices": choicesString(choices), "stride": e.stride, "thread_trace": e.Trace(), "preemptions": e.Preemptions()})
 	}
 	// iterative preemption bounding: complete bound 0, then 1, ... while the projected cost fits
 	var st Stats
 	completed := -1
 	stride := 1
+	strides := map[int]int{}
 	for b := 0; b <= bound; b++ {
+		siteFirst := 0
 		if b >= 1 {
-			// executions grow roughly by a factor (#points) per extra preemption; each costs #points steps
-			cost := sc.Cost
-			if cost < 1 {
-				cost = 1
+			// Executions at bound b grow like Y^b / b!, Y = yielding points of all threads. Y is split
+			// between "first occurrence of static site" points (thinned by site number) and every
+			// stride-th dynamic point; both are sized from the preemption-free run so that the
+			// bound fits the budget (deterministic).
+			y := budget
+			if b >= 2 {
+				y = 1
+				for y*y/2 < budget {
+					y++
+				}
 			}
-			proj := st.Executions * stride * (st.MaxPoints + 1) / b * (st.MaxPoints + 1 + 50*cost)
-			if proj > budget {
-				// thin the preemption points (declared, deterministic) until the bound fits
-				ok := false
-				for _, k := range []int{2, 3, 5, 7, 11, 13, 17, 23, 31, 47, 61, 97} {
-					if k < stride {
-						continue
-					}
-					d := 1
-					for x := 0; x < b; x++ {
-						d *= k
-					}
-					if proj/d <= budget {
-						stride, ok = k, true
-						break
-					}
-				}
-				if !ok || b >= 2 {
-					r.Cap(fmt.Sprintf("%s: preemption bound %d not attempted (projected %d scheduling steps > budget %d)", sc.Name, b, proj, budget))
-					break
-				}
-				r.Cap(fmt.Sprintf("%s: preemption bound %d explored with preemption points thinned to every %d-th step", sc.Name, b, stride))
+			half := y/2 + 1
+			siteFirst = (st.MaxSites + half - 1) / half
+			if siteFirst < 1 {
+				siteFirst = 1
+			}
+			need := (len(sc.Threads)*(st.MaxPoints+1) + half - 1) / half
+			if need > 1 {
+				stride = nextPrime(need)
+			} else {
+				stride = 1
+			}
+			if stride > 1 || siteFirst > 1 {
+				r.Cap(fmt.Sprintf("%s: preemption bound %d explored on a sub-alphabet of scheduling points: every %d-th of %d points passed, first occurrence of every %d-th of %d static sites reached", sc.Name, b, stride, st.MaxPoints, siteFirst, st.MaxSites))
 			}
 		}
-		st = Explore(Options{Bound: b, MaxExecs: 2000000, MaxSteps: 200000, Stride: stride}, body)
-		if st.Capped {
+		strides[b] = stride
+		stb := Explore(Options{Bound: b, MaxExecs: 8 * budget, MaxSteps: 400000, Stride: stride, SiteFirst: siteFirst}, body)
+		if b == 0 {
+			st = stb
+		} else {
+			st.Executions = stb.Executions
+			st.ByPreemption = stb.ByPreemption
+			st.Points = stb.Points
+			st.Capped = stb.Capped
+		}
+		if stb.Capped {
 			break
 		}
 		completed = b
@@ -199,6 +238,15 @@ func ReplayScenario(r *verifmc.Run, sc Scenario, caseID string) {
 	if len(parts) != 2 || parts[0] != sc.Name {
 		return
 	}
+	stride, siteFirst := 1, 0
+	if k := strings.Index(parts[1], ":"); k >= 0 {
+		hd := strings.SplitN(parts[1][:k], "/", 2)
+		stride, _ = strconv.Atoi(hd[0])
+		if len(hd) == 2 {
+			siteFirst, _ = strconv.Atoi(hd[1])
+		}
+		parts[1] = parts[1][k+1:]
+	}
 	var choices []int
 	for _, s := range strings.Split(parts[1], ".") {
 		if s == "" {
@@ -215,7 +263,7 @@ func ReplayScenario(r *verifmc.Run, sc Scenario, caseID string) {
 		i := i
 		bodies[i] = func() { got[i] = sc.Threads[i](sh) }
 	}
-	e := &Exec{prefix: choices, yield: make(chan struct{})}
+	e := &Exec{prefix: choices, yield: make(chan struct{}), stride: stride, siteSeen: map[[2]int]int{}, siteFirst: siteFirst}
 	e.Run(bodies...)
 	r.Eval(1)
 	if e.Deadlock {
@@ -241,9 +289,18 @@ func RunScenarios(r *verifmc.Run, scs []Scenario, bound int) {
 	// faster and independent of machine load; parallelism comes from packages running as processes.
 	defer runtime.GOMAXPROCS(runtime.GOMAXPROCS(1))
 	total := 0
+	autoAvailable := os.Getenv("VERIF_INSTR_AUTO_POINTS") != "" && os.Getenv("VERIF_INSTR_AUTO_POINTS") != "0"
 	for _, sc := range scs {
 		if r.Replaying() {
-			ReplayScenario(r, sc, r.ReplayCase())
+			if strings.Contains(r.ReplayCase(), " +auto-points@") {
+				SetAutoPoints(true)
+				sa := sc
+				sa.Name = sc.Name + " +auto-points"
+				ReplayScenario(r, sa, r.ReplayCase())
+				SetAutoPoints(false)
+			} else {
+				ReplayScenario(r, sc, r.ReplayCase())
+			}
 			continue
 		}
 		st := ExploreScenario(r, sc, bound)
@@ -253,6 +310,25 @@ func RunScenarios(r *verifmc.Run, scs []Scenario, bound int) {
 			r.Count("scenarios_without_scheduling_points", 1)
 		} else {
 			r.Count("scenarios_with_scheduling_points", 1)
+		}
+		// second pass: additionally yield at the automatically placed points (every function of
+		// the module that mentions a package-level variable), up to one preemption
+		if autoAvailable {
+			SetAutoPoints(true)
+			budgetDiv = 6
+			sa := sc
+			sa.Name = sc.Name + " +auto-points"
+			ab := bound
+			if ab > 1 {
+				ab = 1
+			}
+			st2 := ExploreScenario(r, sa, ab)
+			budgetDiv = 1
+			SetAutoPoints(false)
+			total += st2.Executions
+			if st2.MaxPoints > st.MaxPoints {
+				r.Count("scenarios_reaching_auto_points", 1)
+			}
 		}
 	}
 	if !r.Replaying() && r.NumViolations() == 0 {
@@ -264,6 +340,8 @@ func RunScenarios(r *verifmc.Run, scs []Scenario, bound int) {
 	r.Set("preemption_bound", bound)
 	r.Set("instrumented_files", os.Getenv("VERIF_INSTR_FILES"))
 	r.Set("instrumentation_points", os.Getenv("VERIF_INSTR_POINTS"))
+	r.Set("auto_instrumented_files", os.Getenv("VERIF_INSTR_AUTO_FILES"))
+	r.Set("auto_instrumentation_points", os.Getenv("VERIF_INSTR_AUTO_POINTS"))
 }
 
 // FreeRun executes the scenarios on real goroutines, reps times each, for the
